@@ -38,6 +38,7 @@ ASSUMPTIONS = [
     "third-party code runs atomically between scheduling points",
 ]
 
+E2_BUDGET = 40  # executions per E2 work item before the rest of the subtree is re-queued
 BREW_CONSTS = ["CONFIDENCE_CHUNK_SIZE", "MERGE_SORT_CHUNK_SIZE", "CHUNK_SIZE_ROWS_PREDICTION", "CHUNK_SIZE_READ_ALL_DATA"]
 PIN_CONSTS = ["CHUNK_SIZE_COLUMNS_FOR_DROP_COLUMNS", "CHUNK_SIZE_ROWS_FOR_DROP_COLUMNS"]
 
@@ -352,7 +353,10 @@ def e2_worker(item):
                     f"from the sequential run" + (f": {exc}" if exc else ""),
                     {"e2": kind, "focus": focus, "schedule": list(exe.choices), "granularity": gran}))
 
-        sched.explore(body, focus, bound, on_exec, granularity=gran, root_prefix=root)
+        # a budget of executions per work item; what is left of the subtree goes back to the parent's queue
+        n, more = sched.explore(body, focus, bound, on_exec, granularity=gran, root_prefix=root, cap=E2_BUDGET)
+        if more:
+            acc.payload.extend((kind, focus, bound, gran, list(pfx), ref_hash) for pfx in sched.explore.remaining)
     finally:
         set_chunks(**DEFAULT_CHUNKS)
         shutil.rmtree(work, ignore_errors=True)
@@ -485,7 +489,11 @@ def run(ctx):
         it, info = e2_plan(ctx, kind, bounds)
         e2_items += it
         infos.append(info)
-    ctx.pmap(e2_worker, e2_items)
+    while e2_items:  # work items hand back the unexplored rest of their subtree: re-queue until nothing is left
+        before = len(ctx.acc.payload)
+        ctx.pmap(e2_worker, e2_items)
+        e2_items = ctx.acc.payload[before:]
+        del ctx.acc.payload[before:]
     ctx.seed = save
     ex = ctx.acc.extra
     ctx.info["states"] = ex.get("e2_executions", 0)
